@@ -1,13 +1,13 @@
 (* C19 - the client never wedges and refuses work unless a session is alive.
    Model/Client.v: APIClient's bookkeeping over a sequence of Model/Conn.v connections.
    Proved here: the acceptance rule, the refusal of commands and requests without a live session (nothing written, state
-   untouched), and that every way a connection ends or a connect phase fails clears the client's reference in the very
-   callback in which it happens.  PARTIAL in one named respect: the run-level corollary "whenever no attempt is in progress
-   and no session is alive the client holds no connection" (which needs that a connection that was never connected only
-   closes while one of its coroutines is in flight) is checked on the implementation at every quiescent point and by trace
-   validation on every run, not yet proved as a theorem about runs. *)
+   untouched), that every way a connection ends or a connect phase fails clears the client's reference in the very callback
+   in which it happens, and - for every sequence of client calls and connection events - that whenever the connection is
+   closed and neither connect phase is in flight the client holds no connection, so that the next start_connection is
+   accepted (C19_never_wedged; the invariant behind it, preserved by every label of the connection machine, is in
+   Proofs/ConnWedge.v and Proofs/ClientProofs.v). *)
 From Coq Require Import NArith ZArith List Bool.
-From Verif Require Import Model.Conn Model.Client.
+From Verif Require Import Model.Conn Model.Client Proofs.ConnWedge Proofs.ClientProofs.
 Import ListNotations.
 
 Theorem C19_start_accepted_iff_free : forall k k' o,
@@ -65,6 +65,23 @@ Proof.
   destruct (step (cl_conn k) LForce) as [[c1 o1]|]; [|discriminate]. intro H. injection H as <- _. reflexivity.
 Qed.
 
+(* for EVERY run of the client from a fresh object: a closed connection with no connect phase in flight is not referred to any more,
+   and the next start_connection is accepted *)
+Theorem C19_never_wedged : forall nz ex ka scr ls k os,
+  crun (client_init nz ex ka scr) ls = Some (k, os) ->
+  cs (cl_conn k) = Closed -> SF (cl_conn k) = false -> cl_has k = false.
+Proof. exact never_wedged. Qed.
+Theorem C19_then_start_is_accepted : forall nz ex ka scr ls k os k' o,
+  crun (client_init nz ex ka scr) ls = Some (k, os) ->
+  cs (cl_conn k) = Closed -> SF (cl_conn k) = false -> cstep k CStart = Some (k', o) -> ~ In CRaiseAlready o.
+Proof.
+  intros nz ex ka scr ls k os k' o E Hc Hs Es Hin.
+  apply (C19_start_accepted_iff_free k k' o Es) in Hin. rewrite (never_wedged nz ex ka scr ls k os E Hc Hs) in Hin. discriminate.
+Qed.
+(* the invariant holds in every reachable client state: the connection object is well formed and, while referred to, open or in progress *)
+Theorem C19_invariant_all_runs : forall nz ex ka scr ls k os, crun (client_init nz ex ka scr) ls = Some (k, os) -> CI k.
+Proof. intros. eapply crun_CI; [apply CI_init|eassumption]. Qed.
+
 (* non-vacuity: connect, peer closes, connect again; a command in between is refused *)
 Definition hello : msg := mkMsg T_HELLO_RESP true 0 1 NameEmpty false.
 Definition discreq : msg := mkMsg T_DISC_REQ true 0 0 NameEmpty false.
@@ -76,3 +93,13 @@ Example C19_two_sessions :
     (crun (client_init false false 20480 []) (session ++ [CStart; CConn (LData [DFrame discreq]); CCommand [33%N]; CStart]))
   = Some (true, 2%nat, Init, []).
 Proof. vm_compute. reflexivity. Qed.
+
+(* the hypotheses of C19_never_wedged are met after a session the device ended, and after a failed attempt *)
+Example C19_never_wedged_applies :
+  option_map (fun r => (cs (cl_conn (fst r)), SF (cl_conn (fst r)), cl_has (fst r)))
+    (crun (client_init false false 20480 []) (session ++ [CConn (LData [DFrame discreq])]))
+  = Some (Closed, false, false) /\
+  option_map (fun r => (cs (cl_conn (fst r)), SF (cl_conn (fst r)), cl_has (fst r)))
+    (crun (client_init false false 20480 []) [CStart; CConn (LResolveDone (Some (Lib LResolve)) 1); CConn (LWake TStart)])
+  = Some (Closed, false, false).
+Proof. split; vm_compute; reflexivity. Qed.
